@@ -263,6 +263,16 @@ fn build_ctx(setup: &Setup, disabled: bool) -> Ctx {
         }
     }
     ctx.set_function("p".to_string(), panicking_function()).expect("setup");
+    // `c`: a stateful counter owned by the closure; a clone of the context gets a copy of it
+    ctx.set_function("c".to_string(), verifsim::env::counter_function("c".to_string(), None))
+        .expect("setup");
+    // `q`: a dispatcher that does not know what it was asked for - a user function that itself
+    // fails with a not-found error (the evaluator then tries the builtin of the called name)
+    ctx.set_function(
+        "q".to_string(),
+        Function::new(|_arg: &V| Err(EvalexprError::FunctionIdentifierNotFound("inner".to_string()))),
+    )
+    .expect("setup");
     ctx.set_builtin_functions_disabled(disabled).expect("setup");
     ctx
 }
@@ -355,6 +365,11 @@ fn run_script(ctx: &mut Ctx, sh: &Shared, programs: &[usize]) -> String {
         if let Some(tree) = sh.scripts.get(*p) {
             out.push(cr(&tree.eval_with_context_mut(ctx)));
         }
+    }
+    // the private context's own copy of the stateful function (never called on the shared one)
+    let arg = Value::Int(1);
+    for _ in 0..3 {
+        out.push(format!("c={}", cr(&ctx.call_function("c", &arg))));
     }
     format!("{} => {}", out.join(" ; "), snapshot(ctx))
 }
@@ -504,6 +519,27 @@ fn exec_inner(op: &TOp, sh: &Shared) -> String {
             s
         },
     }
+}
+
+/// Evaluates a shared tree from a thread-local destructor, i.e. while its thread is being torn
+/// down, and leaves the rendered result in a slot the main thread reads after joining.
+pub struct TeardownProbe {
+    pub shared: Arc<Shared>,
+    pub slot: Arc<std::sync::Mutex<Option<String>>>,
+}
+
+impl Drop for TeardownProbe {
+    fn drop(&mut self) {
+        let r = exec(&TOp::EvalTree { tree: 0, ctx: CtxSel::Main, entry: 0 }, &self.shared);
+        if let Ok(mut s) = self.slot.lock() {
+            *s = Some(r);
+        }
+    }
+}
+
+thread_local! {
+    /// registered before the thread's first evaluation; its destructor evaluates once more
+    static TEARDOWN: std::cell::RefCell<Option<TeardownProbe>> = const { std::cell::RefCell::new(None) };
 }
 
 thread_local! {
@@ -656,13 +692,25 @@ pub fn run(w: &Workload, cfg: sched::SimConfig) -> Result<RunOutcome, String> {
     let n = w.threads.len();
     let results: Vec<std::sync::Mutex<Vec<String>>> = (0..n).map(|_| std::sync::Mutex::new(Vec::new())).collect();
     let results = Arc::new(results);
+    let teardown_slots: Vec<Arc<std::sync::Mutex<Option<String>>>> =
+        (0..n).map(|_| Arc::new(std::sync::Mutex::new(None))).collect();
     let mut bodies: Vec<Box<dyn FnOnce() + Send>> = Vec::new();
     for (i, ops) in w.threads.iter().enumerate() {
         let sh = sh.clone();
         let ops = ops.clone();
         let results = results.clone();
         let built = built.clone();
+        let slot = teardown_slots[i].clone();
         bodies.push(Box::new(move || {
+            // registered before this thread evaluates anything: thread-local destructors run in
+            // reverse registration order, so the probe's evaluation happens after the library's
+            // own thread-locals (if it has any) are gone
+            TEARDOWN.with(|t| {
+                *t.borrow_mut() = Some(TeardownProbe {
+                    shared: sh.clone(),
+                    slot,
+                })
+            });
             let _ = take_built();
             for op in &ops {
                 let r = exec(op, &sh);
@@ -722,6 +770,25 @@ pub fn run(w: &Workload, cfg: sched::SimConfig) -> Result<RunOutcome, String> {
                         actual: a,
                     });
                     break 'outer;
+                }
+            }
+        }
+    }
+    if finding.is_none() && !report.deadlock {
+        // evaluations made while the threads were torn down (thread-local destructors)
+        let expected_teardown = exec(&TOp::EvalTree { tree: 0, ctx: CtxSel::Main, entry: 0 }, &sh);
+        for (t, slot) in teardown_slots.iter().enumerate() {
+            let got = slot.lock().unwrap().clone();
+            if let Some(got) = got {
+                if got != expected_teardown {
+                    finding = Some(CFinding {
+                        class: "evaluation-during-thread-teardown-differs".into(),
+                        thread: t,
+                        op: 0,
+                        expected: expected_teardown.clone(),
+                        actual: got,
+                    });
+                    break;
                 }
             }
         }
@@ -844,9 +911,16 @@ pub fn miri_workload(seed: u64) -> Workload {
                 "len(c) + math::abs(0 - a) + floor(2.5) + round(2.4) + ceil(0.1)".to_string(),
                 "typeof(str::from(a)) + str::to_uppercase(c) + str::trim(\" q \")".to_string(),
                 "min(3, 8) * 100 + max(3, 8) + len(\"ab\") + if(true, 1, 2)".to_string(),
+                "q(1)".to_string(),
             ];
             for t in 0..n_threads {
                 let mut ops = Vec::new();
+                if t == 0 {
+                    // one thread keeps calling the not-found dispatcher while the others resolve builtins
+                    for _ in 0..3 {
+                        ops.push(TOp::EvalTree { tree: 4, ctx: CtxSel::Main, entry: 0 });
+                    }
+                }
                 for k in 0..4 {
                     let tree = (t + k) % 4;
                     let ctx = if tree == 3 && rng.percent(50) { CtxSel::EmptyBuiltins } else { CtxSel::Main };
@@ -866,7 +940,7 @@ pub fn miri_workload(seed: u64) -> Workload {
                 // long strings (80+ bytes after concatenation)
                 "(s + s) + c + (\"p\" + s)".to_string(),
                 // numerically equal int and float arguments to type-sensitive functions
-                "(g(1), g(1.0), k(2), k(2.0), g(1), g(1.0))".to_string(),
+                "(g(1), g(1.0), k(2), k(2.0), r(3), g(1.0))".to_string(),
             ];
             w.sources = vec!["(1 + 2) * (3 + 4) + a".to_string(), "a + b * 2 - len(c)".to_string()];
             for t in 0..n_threads {
@@ -1082,12 +1156,46 @@ pub fn gen_workload_sized(rng: &mut Rng, small: bool) -> Workload {
             }
         }
     }
+    if rng.percent(15) {
+        sources.push("q(1) + len(\"ab\")".to_string());
+    }
     let mut scripts = Vec::new();
     for _ in 0..rng.range(2, 5) {
         let deep = !small && rng.percent(20);
         scripts.push(gen_tree(rng, &setup, deep, true));
     }
     let values: Vec<V> = (0..rng.range(1, 4)).map(|_| any_value(rng)).collect();
+    // rarely: more threads than twice the number of cores, each inside a user function that
+    // evaluates an expression of its own (`r`): counted resources held across nested evaluations
+    if !small && rng.percent(1) {
+        let cores = std::thread::available_parallelism().map(|n| n.get()).unwrap_or(8);
+        let crowd = 2 * cores + 4;
+        let nested = Expr::Call(
+            "r".to_string(),
+            Some(Box::new(Expr::Call(
+                "r".to_string(),
+                Some(Box::new(Expr::Lit(Value::Int(3)))),
+            ))),
+        );
+        let mut trees = trees;
+        let idx = trees.len();
+        trees.push(nested);
+        let mut assembled = assembled;
+        assembled.push(true);
+        return Workload {
+            trees,
+            assembled,
+            sources,
+            scripts,
+            setup,
+            values,
+            threads: (0..crowd)
+                .map(|_| vec![TOp::EvalTree { tree: idx, ctx: CtxSel::Main, entry: 0 }])
+                .collect(),
+            extra_tree_sources: Vec::new(),
+            fresh: false,
+        };
+    }
     let n_threads = if many_threads { rng.range(5, 8) } else { rng.range(2, 4) };
     let mut threads = Vec::new();
     for _ in 0..n_threads {
